@@ -13,6 +13,7 @@ from harness import tlc
 from harness.common import machinery_failure
 
 CHECKS = {
+    'C01': 'harness.c01',
     'C02': 'harness.c02',
     'C04': 'harness.c04',
     'C11': 'harness.c11',
